@@ -24,6 +24,11 @@ var faultNames = map[int]string{fRecvErr: "recv-err", fRecvDataEOF: "recv-data+e
 // ErrInjected is the error value injected channel faults return.
 var ErrInjected = errors.New("injected channel failure")
 
+// ErrInjectedClose is what a Close that does close the channel, but reports a
+// failure, returns (a value of its own: a client or server may attach it to
+// whatever it reports, and it must not be mistaken for a failed Recv or Send).
+var ErrInjectedClose = errors.New("injected failure while closing")
+
 // An End is one end of a simulated, reliable, ordered record channel. It
 // implements channel.Channel. All methods must be called by the token holder.
 type End struct {
@@ -230,7 +235,7 @@ func (e *End) Close() error {
 	e.closeBusy--
 	if e.CloseErr {
 		e.r.Fault("close-returns-error")
-		return ErrInjected
+		return ErrInjectedClose
 	}
 	return nil
 }
